@@ -102,6 +102,24 @@ func c29sGen(t *rapid.T) c29sCase {
 	return c
 }
 
+// c29Ctx is a context with an error of its own.
+type c29Ctx struct {
+	context.Context
+	done chan struct{}
+	err  error
+}
+
+var errC29 = errors.New("verif: stop requested")
+
+func (c *c29Ctx) Done() <-chan struct{} { return c.done }
+func (c *c29Ctx) Err() error            { return c.err }
+func (c *c29Ctx) cancel() {
+	if c.err == nil {
+		c.err = errC29
+		close(c.done)
+	}
+}
+
 func hashEvents(evs []spEvent) uint64 {
 	h := fnv.New64a()
 	for _, e := range evs {
@@ -156,12 +174,21 @@ func c29sCheck(c c29sCase, r *ev.Recorder) *Failure {
 		return n
 	}
 	sawCtx, sawDone := false, false
-	for _, k0 := range c.Cancel {
+	for ci, k0 := range c.Cancel {
 		k := k0
 		if k > 0 && len(base.Events) > 0 {
 			k = 1 + (k0-1)%len(base.Events)
 		}
-		ctx, cancel := context.WithCancel(context.Background())
+		// every second run uses a context of the harness' own, whose Err() is not
+		// context.Canceled: the parse has to return the context's error, whatever it is
+		var ctx context.Context
+		var cancel func()
+		if ci%2 == 1 {
+			own := &c29Ctx{Context: context.Background(), done: make(chan struct{})}
+			ctx, cancel = own, own.cancel
+		} else {
+			ctx, cancel = context.WithCancel(context.Background())
+		}
 		posAtCancel := 0
 		var got spOutcome
 		if k == 0 {
@@ -181,7 +208,10 @@ func c29sCheck(c c29sCase, r *ev.Recorder) *Failure {
 		}
 		cancel()
 		r.Eval(1)
-		if errors.Is(got.Err, context.Canceled) {
+		if got.Err != nil && got.Err != ctx.Err() && (errors.Is(got.Err, context.Canceled) || errors.Is(got.Err, context.DeadlineExceeded) || errors.Is(got.Err, errC29)) {
+			return failf("foreign-context-error:"+c.Parser, "cancelled at event %d the parse returned %q, the context's error is %q; %s", k, got.Err, ctx.Err(), short())
+		}
+		if got.Err != nil && got.Err == ctx.Err() {
 			sawCtx = true
 			posEnd := 0
 			for _, e := range got.Events {
@@ -220,7 +250,7 @@ func c29sCheck(c c29sCase, r *ev.Recorder) *Failure {
 func TestC29S(t *testing.T) {
 	p := &prop[c29sCase]{
 		ID:   "C29",
-		Rule: "shipped cancellable parsers tm, js, test on long inputs assembled from 1..1200 statements of a per-language list (repeating random pattern; for tm/js optionally a broken statement, once or again every 1..40 statements, so that recovery runs), up to ~15000 tokens; six runs per input: context cancelled before the parse and from inside the listener at five generated event numbers. Each run must return context.Canceled or reproduce error value, event count and event hash of the uncancelled parse; after a context error the reported nodes must not reach more than 2048(+64) tokens beyond the cancellation point, and a run that completed must have had at most that many tokens left (tokens inside SyntaxProblem nodes of the uncancelled parse are not counted: recovery skips them without shifting). Non-trivial: an input for which both outcomes (context error and normal completion) occurred; distinct by (parser, pattern, length, cancel points).",
+		Rule: "shipped cancellable parsers tm, js, test on long inputs assembled from 1..1200 statements of a per-language list (repeating random pattern; for tm/js optionally a broken statement, once or again every 1..40 statements, so that recovery runs), up to ~15000 tokens; six runs per input: context cancelled before the parse and from inside the listener at five generated event numbers. Every second run uses a context type of the harness whose Err() is an error of its own. Each run must return the context's error (exactly ctx.Err(), not another context error) or reproduce error value, event count and event hash of the uncancelled parse; after a context error the reported nodes must not reach more than 2048(+64) tokens beyond the cancellation point, and a run that completed must have had at most that many tokens left (tokens inside SyntaxProblem nodes of the uncancelled parse are not counted: recovery skips them without shifting). Non-trivial: an input for which both outcomes (context error and normal completion) occurred; distinct by (parser, pattern, length, cancel points).",
 		Assume: []string{"the parser position at cancellation is estimated from the largest end offset reported so far (lags by at most one statement of the generated inputs)", "the bound tolerated is 4x the template's 512-shift polling interval"},
 		Quick:  600, Thorough: 30000,
 		Gen:   c29sGen,
